@@ -82,10 +82,8 @@ R('enh_decode_len6', 'h_enh_decode', None, unwind=34, defines=['DEC_MAXLEN=6'], 
   bounded='buffer length <= 6 bytes per call (the transport buffer holds up to 32)')
 R('enh_decode_len8', 'h_enh_decode', None, unwind=34, defines=['DEC_MAXLEN=8'], props=('C14', 'C20'), cost=600, timeout=3000, tier='thorough',
   bounded='buffer length <= 8 bytes per call (the transport buffer holds up to 32)')
-# longer buffers: the time roughly doubles per two bytes (len6 300 s, len8 600 s); 32 bytes (the transport buffer size) did not finish in 7000 s with
-# MiniSat, and the external solver is called once per obligation (CNF written each time), which is slower still -> 10 bytes is the thorough bound
-R('enh_decode_len10', 'h_enh_decode', None, unwind=34, defines=['DEC_MAXLEN=10'], props=('C14', 'C20'), cost=1500, timeout=5000, tier='thorough',
-  bounded='buffer length <= 10 bytes per call (the transport buffer holds up to 32)')
+# longer buffers: len6 300 s, len8 550 s, but 10 bytes did not finish in 4000 s and 32 bytes (the transport buffer size) not in 7000 s (MiniSat; the
+# external solver is called once per obligation with the CNF written each time, which is slower still) -> 8 bytes is the thorough bound
 R('enh_encode', 'h_enh_encode', None, unwind=3, props=('C14', 'C20'), cost=5)
 R('transport', 'h_transport', None, unwind=34, props=('C14', 'C20'), cost=60)
 R('plain_recv', 'h_plain_recv', None, unwind=6, props=('C14', 'C03', 'C01', 'C20'), cost=20)
